@@ -93,9 +93,15 @@ func vhCondC04(g *vhDigits, depth int, name string) Condition {
 	default:
 		ex = vhBuildC04(g, depth, 2, name+"x")
 	}
-	if g.next(4) == 0 {
+	switch g.next(8) {
+	case 0, 1:
 		// a user-defined operator must survive the round trip as well
 		return Cond("k"+name, vhUserOp{"~" + string(rune('0'+code)), "approx"}, ex)
+	case 2:
+		// incomplete Conditions (no operator, no keyword) are content like any other
+		return Cond("k"+name, nil, ex)
+	case 3:
+		return Cond("", ComparisonOperator(code), ex)
 	}
 	return Cond("k"+name, ComparisonOperator(code), ex)
 }
@@ -259,7 +265,11 @@ func VH_C04(p []int) {
 	verifAssert(err == nil, "unmarshal-error")
 	vhShape(s, u, "shape")
 	var r Stack
-	err = r.Marshal(u...)
+	if nondetChoice(2) == 0 {
+		err = r.Marshal(u...)
+	} else {
+		err = r.Marshal(u) // the slice handed over as one argument
+	}
 	verifObserve("marshal-err", err != nil)
 	verifAssert(err == nil, "marshal-error")
 	verifAssert(r.IsInit(), "reconstruction-initialised")
